@@ -265,6 +265,11 @@ K("awkward_NumpyArray_rearrange_shifted",
   extents={"starts": "startslength", "parents": "parentslength"},
   requires=[INRANGE("parents", "length", "startslength"), "length <= parentslength"],
   unchecked=["shifts"],
+  # C06 (argsort returns positions inside each list): a position p found for the merged column is reported relative
+  # to its own list: p + shifts[p] - starts[parents[i]] -- the shift looked up at the *position*, stated from the
+  # property, not from the kernel's definition
+  store_asserts={"toptr@L1": ["value == toptr[at] + shifts[toptr[at]] - starts[parents[at]]"],
+                 "toptr@L0.0": ["value == toptr[at] + offsets[i]"]},
   notes="shifts is indexed by values read back from the in/out array toptr; its bound depends on the caller's data and is not under contract",
   serves=["C06", "C12", "C13"])
 
